@@ -197,15 +197,23 @@ func schemaMatrix() []*schemaFile {
 		f, _, _ := small("moneof")
 		m := &descriptorpb.DescriptorProto{Name: sp("Oneofs")}
 		m.OneofDecl = []*descriptorpb.OneofDescriptorProto{{Name: sp("first")}, {Name: sp("second")}}
-		n := int32(1)
-		for i, k := range scalarKinds {
-			if k == "sint32" || k == "sint64" {
-				continue
+		// members of one oneof are declared consecutively (protobuf rule) but the field
+		// NUMBERS of the two oneofs interleave
+		for pass := 0; pass < 2; pass++ {
+			n := int32(1)
+			for i, k := range scalarKinds {
+				if k == "sint32" || k == "sint64" {
+					continue
+				}
+				if i%2 == pass {
+					m.Field = append(m.Field, mkField(fieldSpec{name: "o_" + k, num: n, kind: k, oneof: pass}))
+				}
+				n++
 			}
-			m.Field = append(m.Field, mkField(fieldSpec{name: "o_" + k, num: n, kind: k, oneof: i % 2}))
-			n++
+			if pass == 0 {
+				m.Field = append(m.Field, mkField(fieldSpec{name: "o_enum", num: 30, kind: "enum", typeName: ".vh.moneof.Color", oneof: 0}))
+			}
 		}
-		m.Field = append(m.Field, mkField(fieldSpec{name: "o_enum", num: 30, kind: "enum", typeName: ".vh.moneof.Color", oneof: 0}))
 		m.Field = append(m.Field, mkField(fieldSpec{name: "o_msg", num: 31, kind: "message", typeName: ".vh.moneof.Leaf", oneof: 1}))
 		m.Field = append(m.Field, mkField(fieldSpec{name: "plain", num: 40, kind: "int64", oneof: -1}))
 		f.MessageType = append(f.MessageType, m)
@@ -274,16 +282,22 @@ func schemaMatrix() []*schemaFile {
 		f.MessageType = append(f.MessageType, outer)
 		add("mnested", f)
 	}
-	// 9. field names colliding with protoreflect.Message methods and generated identifiers
-	{
-		f, _, _ := small("mnames")
+	// 9. field names colliding with protoreflect.Message methods, with methods of the
+	// message struct, and with identifiers local to the generated code (one file each)
+	nameGroups := map[string][]string{
+		"mnames":  {"get", "set", "has", "clear", "range", "descriptor", "type", "new", "interface", "mutable", "is_valid", "which_oneof", "get_unknown", "set_unknown", "new_field", "proto_methods"},
+		"mnames2": {"reset", "string", "proto_message", "proto_reflect"},
+		"mnames3": {"x", "input", "options", "n", "l", "i", "d_at_a", "size", "err", "value", "fd", "v", "k", "wire", "b", "len", "cap", "append", "copy", "make", "string_", "int32", "uint64", "bool", "byte", "nil", "true", "false", "iota", "math", "fmt", "runtime", "protoreflect", "protoiface", "sort", "io"},
+	}
+	for _, gname := range []string{"mnames", "mnames2", "mnames3"} {
+		f, _, _ := small(gname)
 		m := &descriptorpb.DescriptorProto{Name: sp("Names")}
-		for i, name := range []string{"get", "set", "has", "clear", "range", "descriptor", "type", "new", "interface", "mutable", "reset", "string", "proto_reflect", "proto_methods", "is_valid", "which_oneof", "get_unknown", "size", "x", "input", "options", "n", "l", "i", "d_at_a"} {
+		for i, name := range nameGroups[gname] {
 			k := []string{"int32", "string", "bool"}[i%3]
 			m.Field = append(m.Field, mkField(fieldSpec{name: name, num: int32(i + 1), kind: k, oneof: -1}))
 		}
 		f.MessageType = append(f.MessageType, m)
-		add("mnames", f)
+		add(gname, f)
 	}
 	// 10. a oneof whose name collides with a protoreflect.Message method
 	{
